@@ -55,4 +55,20 @@ theorem fst_inj_of_nodup {σ : Type} (l : List (Nat × σ)) (hn : (l.map (·.1))
     · exact absurd hab (hn.1 a ha')
     · exact ih hn.2 ha' hb'
 
+theorem findList_mem {σ : Type} (lists : List (String × List (Nat × σ))) (name : String) (l : List (Nat × σ))
+    (h : findList lists name = some l) : (name, l) ∈ lists := by
+  induction lists with
+  | nil => simp [findList] at h
+  | cons p rest ih =>
+    obtain ⟨n, l0⟩ := p
+    simp only [findList] at h
+    by_cases hn : (n == name) = true
+    · rw [if_pos hn] at h
+      have : n = name := by simpa using hn
+      subst this
+      cases h
+      exact List.mem_cons_self
+    · rw [if_neg hn] at h
+      exact List.mem_cons_of_mem _ (ih h)
+
 end SchemaSel
